@@ -216,22 +216,15 @@ class BigMapType(MapType, prim='big_map', args_len=2):
             return val  # type: ignore
 
     def update(self, key: MichelsonType, val: Optional[MichelsonType]) -> Tuple[Optional[MichelsonType], MichelsonType]:
-        removed_keys = set(self.removed_keys)
         prev_val = self.get(key, dup=False)
-        if prev_val is not None:
-            if val is not None:
-                items = [(k, v if k != key else val) for k, v in self]
-            else:  # remove
-                items = [(k, v) for k, v in self if k != key]
-                removed_keys.add(key)
-        else:
-            if val is not None:
-                items = sorted(self.items + [(key, val)], key=lambda x: x[0])
-                if key in removed_keys:
-                    removed_keys.remove(key)
-            else:  # do nothing
-                items = self.items  # type: ignore
-        res = type(self)(items=items, ptr=self.ptr, removed_keys=list(removed_keys))  # type: ignore
+        # the diff holds at most one entry per key: either a pending value or a pending removal
+        items = [(k, v) for k, v in self.items if k != key]
+        removed_keys = [k for k in self.removed_keys if k != key]
+        if val is not None:
+            items = sorted(items + [(key, val)], key=lambda x: x[0])
+        elif prev_val is not None or key in self.removed_keys:
+            removed_keys.append(key)  # also covers keys that only exist on chain so far
+        res = type(self)(items=items, ptr=self.ptr, removed_keys=removed_keys)  # type: ignore
         res.context = self.context
         return prev_val, res
 
